@@ -80,7 +80,7 @@ CUR = lv("sbepp::cursor<CB>")
 class ProbeGen:
     def __init__(self, model):
         self.m = model
-        self.pkg = model.sch["package"]
+        self.pkg = model.sch.get("schema_name") or model.sch["package"]
         self.probes = []
         self.aliases = []      # (alias name, C++ template-id without <B>)
         self._alias_ix = {}
@@ -793,7 +793,7 @@ class RoGen:
 
     def __init__(self, model):
         self.m = model
-        self.pkg = model.sch["package"]
+        self.pkg = model.sch.get("schema_name") or model.sch["package"]
         self.lines = []
         self.uid = 0
         self.n = 0
